@@ -1271,7 +1271,8 @@ Proof.
   exists tn', v, j, c. auto 10.
 Qed.
 
-(* ================= statements that are not proved yet (see Properties_C03.v) ================= *)
+(* ================= statements proved in HC/HCLin.v (hc_exactly_one_winner, hc_find_after_insert) and below
+   (hc_full_no_consume) ================= *)
 Definition event_st (s : st) (t i : nat) (o : op) (r : res) (b e : nat) : Prop :=
   exists th, nth_error (threads s) t = Some th /\ nth_error (prog th) i = Some o /\
              nth_error (results th) i = Some (r, b, e).
